@@ -5,7 +5,7 @@ import os
 import modeb
 import vf
 
-FL_GROUPS = ["fl_norm", "fl_add", "fl_mul", "fl_neg", "fl_pred", "fl_setint", "fl_setb32", "fl_getb32"]
+FL_GROUPS = ["fl_norm", "fl_add", "fl_mul", "fl_neg", "fl_pred", "fl_setint", "fl_setb32", "fl_getb32", "fl_fmul", "fl_sqr"]
 FL_HEADER = ("From Sky Require Import Base.Uint Model.Secp Model.FieldSpec Gen.FieldLimbs.\n"
              "Open Scope Z_scope.")
 
@@ -27,14 +27,15 @@ def fieldlimbs_post(ctx, cases, outs, sj, state):
         os.remove(path)
     except OSError:
         pass
-    names = ["mism_" + g for g in FL_GROUPS] + ["pf_fl_norm", "pf_fl_neg"]
+    names = ["mism_" + g for g in FL_GROUPS] + ["pf_fl_norm", "pf_fl_neg", "pf_fl_fmul", "pf_fl_sqr"]
     if not ok or any(n not in vals for n in names):
         vf.violation(ctx, {"broken": "limb-level evaluation file did not compile (Gen/FieldLimbs.v or Corr/C14_limbs.v)",
                            "log": out[-3000:]}, False, "limb-level correspondence could not be evaluated")
         return
     allc = sj.get("cases", {})
     ctx.coverage["fieldlimbs"] = {"cases_per_function": len(allc.get("fl_norm", [])),
-                                  "normalize_cases_inside_premise": vals.get("n_fl_norm_in_premise")}
+                                  "normalize_cases_inside_premise": vals.get("n_fl_norm_in_premise"),
+                                  "mul_cases_inside_premise": vals.get("n_fl_fmul_in_premise")}
     for n in names:
         idx = [int(x) for x in vals[n].strip("[]").replace(";", " ").split()]
         if not idx:
